@@ -1733,3 +1733,68 @@ func c06UndeprecateUngated(c *Ctx, pk *packages.Package) {
 		c.Fail(rule, "anchor", token.NoPos, "no …ToUndeprecated pass found")
 	}
 }
+
+// ---- generic (after round-6 seed C02-p) ----------------------------------------------------------------------------
+
+// mapAliasMutated lists functions that put a map they were handed (a map-typed parameter) into a table of maps AND, in
+// the same function, write into a map they got back out of that table: the second time the key comes round, the writes
+// go into the caller's map - and into every other key that was given the same map (all replacements of one deprecated
+// rule share one path set; which of them inherits a sibling's own paths depends on map order).
+func mapAliasMutated(f *ssa.Function) []*ssa.MapUpdate {
+	var stores []*ssa.MapUpdate
+	for _, b := range f.Blocks {
+		for _, ins := range b.Instrs {
+			mu, ok := ins.(*ssa.MapUpdate)
+			if !ok {
+				continue
+			}
+			if prm, ok := stripConv(mu.Value).(*ssa.Parameter); ok {
+				if _, isMap := prm.Type().Underlying().(*types.Map); isMap {
+					stores = append(stores, mu)
+				}
+			}
+		}
+	}
+	if len(stores) == 0 {
+		return nil
+	}
+	var out []*ssa.MapUpdate
+	for _, st := range stores {
+		mutated := false
+		for _, b := range f.Blocks {
+			for _, ins := range b.Instrs {
+				mu, ok := ins.(*ssa.MapUpdate)
+				if !ok || mu == st {
+					continue
+				}
+				// the map written into was looked up in the table
+				sliceBack(mu.Map, func(x ssa.Value) bool {
+					if lk, ok := x.(*ssa.Lookup); ok && sameSSAExpr(lk.X, st.Map, 3) {
+						mutated = true
+					}
+					return !mutated
+				})
+			}
+		}
+		if mutated {
+			out = append(out, st)
+		}
+	}
+	return out
+}
+
+func ruleMapAliasMutated(c *Ctx, rule string, pkgs []*packages.Package) {
+	c.Rule(rule, "a map handed in by the caller is copied before it is kept in a table whose entries are written into", 0)
+	p := c.P
+	n, fns := 0, 0
+	for _, sf := range p.SSAFuncsOf(pkgs) {
+		for _, f := range allSSAFuncs(sf) {
+			fns++
+			for _, mu := range mapAliasMutated(f) {
+				n++
+				c.Ob(rule, ssaFuncName(f)+"/alias", mu.Pos(), false, true, "%s stores the map it was handed under a key and also writes into maps taken from the same table: the caller's map, shared by every key it was stored under, gets written into", ssaFuncName(f))
+			}
+		}
+	}
+	c.Ob(rule, "functions-scanned", token.NoPos, n == 0, fns > 0, "%d functions scanned, %d handed-in maps kept and written into", fns, n)
+}
